@@ -91,6 +91,13 @@ CHECKS = {
         technique="Lean 4 invariants over a heap/state-machine model + differential correspondence on operation sequences incl. alias structure",
         ref="DESIGN.md §5 C20",
     ),
+    "C03": dict(
+        category="proof",
+        text="Profile theorems over the reals about the expressions REGENERATED on every run from the three _get_phase_field bodies and from get_phase_field (translator checks the 'width == 0 or boolean dtype' branch shape and the None-width default): the smooth profile is strictly between 0 and 1 for every radius/width/distance, exceeds 1/2 exactly when the distance is below the (interface) radius, is antitone in the distance, the sharp branch is exactly the indicator, scaling stays between vmin and vmax (either order) and preserves the midpoint criterion; the perturbed renderer is definitionally the diffuse one with the interface distance as radius. Geometry theorems over Q about the hand model: the periodic difference is invariant under whole periods, lies in [-L/2, L/2), differs from the plain difference by whole periods, and translating the centre by m cells along a periodic axis maps cell j to cell j+m mod n (render_roll); the emulsion field is the clipped sum, in [0,1] and permutation invariant. Tied to the code by evaluating the generated profile at Float on the per-cell distance/interface the real code computes (1e-15), by the exact rational inside/outside pattern on Cartesian grids, and by an independent periodic metric for the predicates on all five classes and all grid families. Exposed D3 (NaN at a cell centre) and D4 (axisymmetric rendering), both fixed in /repo; D12 (py-pde periodic cylindrical metric) is a known finding.",
+        note="Trusted: Lean kernel; propext/Classical.choice/Quot.sound; the translator (monitored by the Float correspondence); spherical harmonics enter through the droplets' own interface_distance (C13); finiteness beyond the profile bounds (overflow of the tanh argument is harmless; inf/nan droplet parameters are not valid droplets) is argued, not proved; py-pde's grid.transform/cell_coords.",
+        technique="Lean 4 theorems over regenerated definitions (translator) and a hand-written geometry model + Float/rational correspondence",
+        ref="DESIGN.md §5 C03",
+    ),
 }
 
 NOT_APPLICABLE = {}
